@@ -259,7 +259,7 @@ func TestC05Keeper(t *testing.T) {
 		q.endBlock()
 	}
 
-	seqs := scale(2000, 30000)
+	seqs := scale(2000, 20000)
 	for s := 0; s < seqs; s++ {
 		q := e.begin(tr)
 		// a market around p0 on the tick grid of the pair's precision
